@@ -24,7 +24,8 @@ Inductive aterm : Type :=
 | TThrow                           (* throw "boom" *)
 | TLoop                            (* for(;;){} : stopped by the deadline *)
 | TEmitBad                         (* _.out(function(){}) : unserialisable *)
-| TRetBad.                         (* return {x: function(){}} / {x: 0/0} : not JSON data *)
+| TRetBad                          (* return {x: function(){}} / {x: 0/0} : not JSON data *)
+| TRetIfEq (k : string) (j : json). (* return (bindings[k] === j) ? _.bindings : null  (j scalar) *)
 
 Record prog : Type := mk_prog { pg_ops : list aop; pg_term : aterm }.
 
@@ -93,6 +94,15 @@ Definition run_js (p : prog) (bs : option bindings) : exec_raw :=
     | TLoop => mk_raw None true
     | TEmitBad => mk_raw None true
     | TRetBad => mk_raw None true
+    | TRetIfEq k j =>
+        match b with
+        | None => mk_raw None true
+        | Some bs =>
+            match lookup k bs with
+            | Some v => if json_eqb v j then mk_raw (Some (b, em)) false else mk_raw (Some (None, em)) false
+            | None => mk_raw (Some (None, em)) false
+            end
+        end
     end.
 
 (** the native rendering: same effects; on failure either (nil, err) or the
@@ -111,6 +121,15 @@ Definition run_native (p : prog) (exe_on_error : bool) (bs : option bindings) : 
     | TLoop => fail
     | TEmitBad => fail
     | TRetBad => fail
+    | TRetIfEq k j =>
+        match b with
+        | None => fail
+        | Some bs =>
+            match lookup k bs with
+            | Some v => if json_eqb v j then mk_raw (Some (b, em)) false else mk_raw (Some (None, em)) false
+            | None => mk_raw (Some (None, em)) false
+            end
+        end
     end.
 
 Definition run_act (a : act) (bs : option bindings) : exec_raw :=
